@@ -1297,38 +1297,7 @@ fn check_asm_model(cx: &mut Cx, project: &Project, dir: &std::path::Path)
 	let req = format!("asm run {}", project.files.iter().map(|(n, d)| format!("{n}={}", if d.is_empty() {"-".to_owned()} else {hex(d)})).collect::<Vec<_>>().join(" "));
 	let model = cx.model.ask(&req);
 	cx.report.hit(&format!("asm model: {}", model.split(' ').next().unwrap_or("")));
-	// Known approximation of the model (Model/Asm.lean header): when the evaluation of a statement fails with an arithmetic
-	// error, the retry task of the real code re-evaluates the tree AS MUTATED by the failed attempt, the model the tree as it
-	// was before; the retry then fails as well, at the same position, but possibly with another arithmetic error kind
-	// (e.g. overflow.add instead of overflow.sub after `x - (-k)` was flipped to `x + k`). Only for such a REPEATED
-	// evaluation diagnostic (same file:line:col as an earlier evaluation diagnostic) the arithmetic sub-kind is not compared.
-	let (model_c, real_c) = (coarsen_retry(&model), coarsen_retry(&real));
-	if model_c != real_c {cx.report.disagree("model.asm.run", project.to_input(), model, real);}
-	else if model != real {cx.report.hit("asm model: retry diagnostic differs only in the arithmetic sub-kind");}
-}
-
-fn coarsen_retry(s: &str) -> String
-{
-	let parts: Vec<&str> = s.split(" | ").collect();
-	if parts.len() < 3 {return s.to_owned();}
-	let mut seen: Vec<String> = Vec::new();
-	let diags: Vec<String> = parts[1].split(',').map(|d|
-	{
-		let f: Vec<&str> = d.splitn(4, ':').collect();
-		if f.len() < 4 {return d.to_owned();}
-		let pos = format!("{}:{}:{}", f[0], f[1], f[2]);
-		match f[3].find(".eval.")
-		{
-			Some(i) =>
-			{
-				let out = if seen.contains(&pos) {format!("{pos}:{}", &f[3][..i + 5])} else {d.to_owned()};
-				seen.push(pos);
-				out
-			},
-			None => d.to_owned(),
-		}
-	}).collect();
-	format!("{} | {} | {}", parts[0], diags.join(","), parts[2..].join(" | "))
+	if model != real {cx.report.disagree("model.asm.run", project.to_input(), model, real);}
 }
 
 // ---------------------------------------------------------------------------------------------------------
